@@ -45,6 +45,12 @@ pub fn option_lists() -> Vec<Vec<(u16, B)>> {
             }
         }
     }
+    for n in [5usize, 8, 12, 20] {
+        out.push((0..n).map(|j| ((j * 11 % 7) as u16 + if j % 2 == 0 { 0 } else { 0x8000 }, gen::bytes_n([0usize, 1, 7, 8, 127, 128, 255, 256, 1000][j % 9], j as u8))).collect());
+    }
+    for l in [63usize, 64, 65, 127, 128, 129, 255, 256, 257, 1023, 1024, 4096, 20000] {
+        out.push(vec![(10, gen::bytes_n(l, 1))]);
+    }
     out
 }
 
